@@ -10,6 +10,7 @@
 #include <sys/wait.h>
 #include <sys/personality.h>
 #include <poll.h>
+#include <sys/time.h>
 #include <sanitizer/allocator_interface.h>
 #include <sanitizer/common_interface_defs.h>
 #include <exception>
@@ -134,8 +135,16 @@ void ExitWithViolation(const std::string & cls, const std::string & detail, uint
 }
 static void OnAlarm(int) {EmitViolLine("hang", g_curOp, 0, (g_mode == 2) ? 1 : 3);}
 static int g_watchdogSecs = 20;
-void WatchdogArm(int seconds) {alarm((unsigned) ((seconds > 0) ? seconds : g_watchdogSecs));}
-void WatchdogDisarm() {alarm(0);}
+// The per-operation watchdog counts the process's CPU time (ITIMER_PROF), not wall-clock time: a busy loop in the code under test trips it after g_watchdogSecs
+// CPU-seconds however loaded the machine is, and a merely starved (or stopped) process never trips it.  A wall-clock alarm ten times as long is the backstop for
+// an operation that blocks without burning CPU (the supervisor's own time-out is the backstop behind that).
+void WatchdogArm(int seconds)
+{
+   const int s = (seconds > 0) ? seconds : g_watchdogSecs;
+   struct itimerval it; memset(&it, 0, sizeof(it)); it.it_value.tv_sec = s; (void) setitimer(ITIMER_PROF, &it, NULL);
+   alarm((unsigned) (10*s));
+}
+void WatchdogDisarm() {struct itimerval it; memset(&it, 0, sizeof(it)); (void) setitimer(ITIMER_PROF, &it, NULL); alarm(0);}
 
 static void OnTerminate()
 {
@@ -265,7 +274,7 @@ int WorkerMain(int argc, char ** argv, const WorkerDef & def)
    }
    if (g_proto == NULL) {g_proto = fdopen(dup(1), "w"); g_resultFd = fileno(g_proto); /* watchdog / terminate / any-thread violation lines are written to this descriptor directly */ if ((mode != "exec")||(Flag(argc, argv, "--verbose") == false)) {const int nul = open("/dev/null", O_WRONLY); if (nul >= 0) {fflush(stdout); (void) dup2(nul, 1); close(nul);}}}
 
-   signal(SIGALRM, OnAlarm);
+   signal(SIGALRM, OnAlarm); signal(SIGPROF, OnAlarm);
    std::set_terminate(OnTerminate);
    setvbuf(stdout, NULL, _IOLBF, 0);
 
